@@ -162,11 +162,13 @@ class Interp:
         raise RaiseSignal(name, msg, st, frame)
 
     def st_Assert(self, st, frame):
-        v = self.truth(self.eval(st.test, frame), frame, st.test, fork=False)
+        tv = self.eval(st.test, frame)
+        v = self.truth(tv, frame, st.test, fork=False)
         if v is False:
             raise RaiseSignal("AssertionError", "", st, frame)
         if v is None:
             self.ctx.event("assert-assumed", ast.unparse(st.test), frame.loc(st))
+            self.ctx.event("assert-cond", getattr(tv, "cond", None), frame.loc(st))
 
     def st_Assign(self, st, frame):
         v = self.eval(st.value, frame)
@@ -206,6 +208,10 @@ class Interp:
             base = self.eval(target.value, frame)
             idx = self.eval(target.slice, frame)
             self.ctx.event("item-store", (val_key(base), val_key(idx), v), frame.loc(target))
+            if self.io_store(base, idx, v, frame, target):
+                return
+            if isinstance(base, DictV) and isinstance(idx, StrV) and idx.s is None:
+                idx = self.concretize_str(idx, frame, target) or idx
             if isinstance(base, DictV) and isinstance(idx, StrV) and idx.s is not None:
                 base.items[idx.s] = v
                 return
